@@ -717,3 +717,28 @@ Proof.
   vm_compute. do 5 right. left. reflexivity.
 Qed.
 
+
+(* the side condition is needed for the chunk-wise statement: `chmod f; chmod f` back to back - the kernel coalesces the
+   second IN_ATTRIB with the first (one record, one FileModified); the stream still equals the two contracts up to collapse
+   of the WHOLE stream *)
+Lemma burst_coalesce_example :
+  exists r k, construct (cfgx true true) kinit (w_fs rp_world) = Some (r, k) /\
+    let ops := [Chmod rp_df; Chmod rp_df] in
+    burst_ok (cfgx true true) rp_world ops /\
+    length (k_queue (fst (burst_end k rp_world ops))) = 1%nat /\ length (concat (seq_qs k rp_world ops)) = 2%nat /\
+    exists s0 s obs, pinit (Px true) rp_world = Some s0 /\
+      prun (Px true) s0 (burst_hist (Px true) ops [1%nat] [] 2) [] = Done (s, obs) /\
+      p_out s = [mk FileModified rp_df []] /\
+      collapse (p_out s) = collapse (concat (contracts_of (cfgx true true) false rp_world ops)).
+Proof.
+  assert (GR : gpath pR) by (split; [discriminate | reflexivity]).
+  assert (ND : npath rp_d) by (apply npath_sub; [exact GR | reflexivity]).
+  assert (NF : npath rp_df) by (apply npath_sub; [now apply npath_gpath | reflexivity]).
+  eexists; eexists. split; [vm_compute; reflexivity|]. cbv zeta. split.
+  { cbn [burst_ok]. repeat match goal with |- context [apply_op ?w ?o] =>
+      let x := eval vm_compute in (apply_op w o) in change (apply_op w o) with x; cbv iota beta end.
+    repeat split; try exact I; try (vm_compute; reflexivity);
+      (apply c1_op; left; split; [apply co_quiet; [exact I | exact NF] | vm_compute; discriminate]). }
+  split; [vm_compute; reflexivity|]. split; [vm_compute; reflexivity|].
+  eexists; eexists; eexists. split; [vm_compute; reflexivity|]. split; [vm_compute; reflexivity|]. split; vm_compute; reflexivity.
+Qed.
